@@ -214,7 +214,96 @@ pub fn run(case: &Value) -> Value {
 
 // ------------------------------------------------------------------------------------------------ signed stores
 
+/// Builds the store manifest by manifest in `order` (root last): v3 ingredient assertions carrying the real manifest /
+/// signature box hashes of already built targets where `hash_ok`, a created action plus one edited action per
+/// ingredient (the recipe of the SDK's own shared-ingredient test), each manifest signed with the ed25519 fixture
+/// by `Store::save_to_stream` into the JPEG fixture.  Returns the final asset and the label table.
+fn craft_signed(nodes: &[Node], order: &[usize]) -> c2pa::Result<(Vec<u8>, Names)> {
+    let signer = e2e::signer("ed25519");
+    let bctx = e2e::context(Some(r#"{"verify": {"verify_after_sign": false, "verify_after_reading": false}}"#));
+    let jpeg = e2e::fixture("IMG_0003.jpg");
+    let mut claims: Vec<Option<Claim>> = (0..nodes.len()).map(|_| Some(Claim::new("verif-harness", Some("verif"), 2))).collect();
+    let labels: Vec<String> = claims.iter().map(|c| c.as_ref().expect("claim").label().to_owned()).collect();
+    let index = labels.iter().cloned().enumerate().map(|(i, l)| (l, i)).collect();
+    let names = Names { labels, index };
+    let mut store = Store::from_context(&bctx);
+    let mut asset = Vec::new();
+    for &idx in order {
+        let n = &nodes[idx];
+        let mut claim = claims[idx].take().expect("each manifest is built once");
+        claim.add_claim_generator_info(ClaimGeneratorInfo::new("verif"));
+        if n.update {
+            set_update_manifest(&mut claim, true);
+        }
+        for (t, has_manifest, rel, hash_ok) in &n.ings {
+            let tl = names.label(*t);
+            let (mh, sh) = if *hash_ok {
+                let tc = store.get_claim(&tl).expect("hash_ok target must be built before its referrer");
+                manifest_box_hashes(&store, tc)
+            } else {
+                (vec![0u8; 32], vec![0u8; 32])
+            };
+            let sig = HashedUri::new(to_signature_uri(&tl), Some("sha256".to_string()), &sh);
+            if *has_manifest {
+                let active = HashedUri::new(to_manifest_uri(&tl), Some("sha256".to_string()), &mh);
+                add_ingredient_v3(&mut claim, rel_of(*rel), Some(active), Some(sig), Some(ValidationResults::default()))?;
+            } else {
+                add_ingredient_v2(&mut claim, rel_of(*rel), None)?;
+            }
+        }
+        let mut actions = Actions::new().add_action(Action::new("c2pa.created").set_source_type(DigitalSourceType::Empty));
+        let mut uris = Vec::new();
+        for ia in claim.ingredient_assertions() {
+            uris.push(HashedUri::new(to_assertion_uri(claim.label(), &ia.label()), Some(claim.alg().to_owned()), ia.hash()));
+        }
+        for u in uris {
+            actions = actions.add_action(Action::new("c2pa.edited").set_parameter("ingredients", vec![u])?);
+        }
+        claim.add_assertion(&actions)?;
+        store.commit_claim(claim)?;
+        asset = save_to_stream(&mut store, "image/jpeg", &jpeg, signer.as_ref(), &bctx)?;
+    }
+    Ok((asset, names))
+}
+
 fn e2e_case(case: &Value) -> Value {
-    let _ = (case, e2e::FIXTURES, DigitalSourceType::Empty, ValidationResults::default());
-    json!({"r": "unimplemented"})
+    let nodes = parse_nodes(case);
+    let order: Vec<usize> = case["order"].as_array().expect("order").iter().map(|v| v.as_u64().expect("idx") as usize).collect();
+    let t0 = Instant::now();
+    let (asset, names) = match craft_signed(&nodes, &order) {
+        Ok(x) => x,
+        Err(e) => return json!({"r": "craft-failed", "kind": err_class(&e), "detail": format!("{e}")}),
+    };
+    let us_craft = t0.elapsed().as_micros() as u64;
+    // 1. the public reader (what an application sees)
+    let t1 = Instant::now();
+    let read = e2e::read(e2e::context(None), "image/jpeg", &asset);
+    let us_read = t1.elapsed().as_micros() as u64;
+    let reader = match &read {
+        Ok(r) => json!({"r": "ok", "report": e2e::report(r)}),
+        Err(e) => json!({"r": "err", "kind": err_class(e)}),
+    };
+    // 2. the same read through Store::from_stream with our own tracker: the ordered log of the ingredient walks
+    let mut log = StatusTracker::default();
+    let t2 = Instant::now();
+    let sr = store_from_stream("image/jpeg", &asset, &mut log, &e2e::context(None));
+    let us_store = t2.elapsed().as_micros() as u64;
+    let (src, detail) = match &sr {
+        Ok(_) => ("ok".to_string(), Value::Null),
+        Err(c2pa::Error::CyclicIngredients { claim_label_path }) => (
+            "CyclicIngredients".to_string(),
+            Value::Array(claim_label_path.iter().map(|l| names.idx(l)).collect()),
+        ),
+        Err(e) => (err_class(e), json!(format!("{e}"))),
+    };
+    let walks = log_json(&log, &names, Some(&["ingredient_checks", "get_claim_referenced_manifests"]));
+    let failures: Vec<Value> = log
+        .logged_items()
+        .iter()
+        .filter(|i| matches!(i.kind, LogKind::Failure))
+        .map(|i| json!([i.validation_status.as_deref().unwrap_or(""), i.function.as_ref()]))
+        .collect();
+    let nsig = log.logged_items().iter().filter(|i| i.validation_status.as_deref() == Some("claimSignature.validated")).count();
+    json!({"r": "done", "len": asset.len(), "reader": reader, "nsig": nsig, "store": src, "detail": detail, "walks": walks, "failures": failures,
+           "us_craft": us_craft, "us_read": us_read, "us_store": us_store})
 }
